@@ -30,7 +30,7 @@ ASSUMPTIONS = [
 ]
 REQUIRED_COUNTERS = ["runs", "calls.concurrent", "overlapping_pairs", "yields_injected", "lines_seen",
                      "threads.2", "threads.4", "threads.8", "shape.shared_node", "shape.t.Object",
-                     "trees.parsed", "quiescence.tree_unchanged", "calls.accepted", "calls.rejected", "runs.cold_tree"]
+                     "trees.parsed", "quiescence.tree_unchanged", "calls.accepted", "calls.rejected", "runs.cold_tree", "cold_process.calls"]
 
 ANCHORS = [
     "statham.schema.property:_Property.bind",
@@ -215,10 +215,65 @@ def one_run(ctx, sut, fpm, monitors, injector, rng, idx):
                 "yield_probability": probability}, every=10)
 
 
+def cold_process(ctx, sut, fpm):
+    """The very first validations of this (fresh) process happen concurrently: process-level lazy
+    initialisation (format checkers, imports, registries) must not be observable.  Runs before anything
+    else in the shard; the sequential reference is taken afterwards from the same, now warm, objects."""
+    doc = {"type": "object", "title": "Cold",
+           "properties": {"when": {"type": "string", "format": "date-time"},
+                          "id": {"type": "string", "format": "uuid"},
+                          "n": {"type": "number", "multipleOf": 0.5}},
+           "required": ["when"]}
+    element = sut.parse_direct(doc)
+    values = [{"when": "not a date!!"}, {"when": "1990-12-31T23:59:59Z"}, {"when": "zz-zz", "id": "!!"},
+              {"when": "2020-02-29T12:00:00+01:00", "id": "123e4567-e89b-12d3-a456-426614174000", "n": 1.5},
+              {"when": "", "n": 0.3}, {"when": "2001-01-01t00:00:00.123z", "id": "zz"}]
+    nthreads = 8
+    barrier = threading.Barrier(nthreads)
+    records = [[] for _ in range(nthreads)]
+
+    def work(tid):
+        barrier.wait(timeout=30)
+        for value in values[tid % len(values):] + values[: tid % len(values)]:
+            outcome, result, _ = sut.call(element, copy.deepcopy(value))
+            records[tid].append((canon(value), outcome, fpm.fp_result(result) if outcome == "ok" else None))
+
+    threads = [threading.Thread(target=work, args=(tid,)) for tid in range(nthreads)]
+    old = sys.getswitchinterval()
+    sys.setswitchinterval(1e-6)
+    try:
+        for thread in threads:
+            thread.start()
+        for thread in threads:
+            thread.join(timeout=120)
+    finally:
+        sys.setswitchinterval(old)
+    if any(t.is_alive() for t in threads):
+        ctx.inconclusive_reason("cold-process threads did not finish within 120 s")
+        return
+    reference = {}
+    for value in values:
+        outcome, result, _ = sut.call(element, copy.deepcopy(value))
+        reference[canon(value)] = (outcome, fpm.fp_result(result) if outcome == "ok" else None)
+    ctx.count("cold_process.calls", sum(len(r) for r in records))
+    for tid, recs in enumerate(records):
+        for key, outcome, fp in recs:
+            ctx.evaluation()
+            want = reference[key]
+            if sut.accepted(outcome) != sut.accepted(want[0]) or (outcome == "ok" and fp != want[1]):
+                ctx.witness("concurrent_differs_from_sequential",
+                            {"schema": doc, "threads": nthreads, "lists": [values], "cold_process": True,
+                             "value": key},
+                            f"first validations of a fresh process, thread {tid}: concurrent -> {outcome}; "
+                            f"alone -> {want[0]}")
+                return
+
+
 def run_shard(ctx):
     from vlib import fingerprint as fpm  # pylint: disable=import-outside-toplevel
     from vlib import monitors, sut  # pylint: disable=import-outside-toplevel
 
+    cold_process(ctx, sut, fpm)
     ctx.signatures = set()
     injector = monitors.YieldInjector(0.0, f"{ctx.seed}/{ctx.shard}")
     injector.start()
